@@ -247,7 +247,7 @@ func c18Artefacts(w *mon.W) []artefact {
 	n := w.Pick(2, 14)
 	for i := 0; i < n; i++ {
 		for _, typ := range []string{"dlg", "inv"} {
-			o := gen.SpecOpts{AnyAlgPct: 30}
+			o := gen.SpecOpts{AnyAlgPct: 30, NoBig: true}
 			if i == 0 {
 				o.Minimal = true
 			}
@@ -273,7 +273,7 @@ func c18Artefacts(w *mon.W) []artefact {
 		sizes = []int{0, 1, 2, 3, 5, 8, 40}
 	}
 	for _, sz := range sizes {
-		set := makeSealedSet(w, sz, 10)
+		set := makeSealedSet(w, sz, 10, true)
 		wr := container.NewWriter()
 		for _, t := range set {
 			wr.AddSealed(t.cid, t.sealed)
@@ -459,7 +459,7 @@ func runC18(w *mon.W) {
 		if !w.Mine(i) {
 			continue
 		}
-		set := makeSealedSet(w, sz, 0)
+		set := makeSealedSet(w, sz, 0, true)
 		wr := container.NewWriter()
 		for _, t := range set {
 			wr.AddSealed(t.cid, t.sealed)
